@@ -91,3 +91,19 @@ Example nth_examples :
   /\ last_s (of_list [vint 1; vint 2]) = sone (vint 2)
   /\ last_s (SCons (vint 1) (fun _ => SExn (XErr (EOther 1)))) = SExn (XErr (EOther 1)).
 Proof. repeat split. Qed.
+
+(** ** isempty(g) = first((g | false), true) (its definition in defs.jq) *)
+Definition isempty_s {A} (s : str A) : str val :=
+  first_s (sapp (smap (fun _ => Bool false) s) (fun _ => sone (Bool true))).
+
+(** true for a stream without outputs, false as soon as there is a first output - whatever follows it: an error, a halt, more
+    outputs or no end at all -, and the stream's own failure when it fails before its first output *)
+Theorem isempty_spec {A} (s : str A) :
+  isempty_s s = match s with
+                | SNil => sone (Bool true)
+                | SCons _ _ => sone (Bool false)
+                | SExn e => SExn e
+                | SBot => SBot
+                | SUnk => SUnk
+                end.
+Proof. destruct s; reflexivity. Qed.
